@@ -271,7 +271,7 @@ def part_histories(ck, exe, model):
         else:
             p = bc.gen_small(r, r.randint(0, 4), r.randint(1, 4))
         cfg = clean_cfg(r)
-        kind = r.choice(["plain", "plain", "abort", "setbasis", "mods", "mods", "outside", "rmmulti"])
+        kind = r.choice(["plain", "plain", "abort", "setbasis", "mods", "mods", "outside", "rmmulti", "fixcol", "fixcol"])
         cid = "h%d" % k
         steps = ["NEW " + lpgen.cfg_text(cfg)]
         if kind == "plain":
@@ -283,6 +283,18 @@ def part_histories(ck, exe, model):
         elif kind == "setbasis":
             rows, cols = bc.random_valid_basis(r, p)
             steps += ["SETB sb %s %s" % (bc.sarg(rows), bc.sarg(cols)), "DUMP after-setbasis A", "SOLVE warm S", "DUMP after-warm A", "SOLVE cold C", "SOLVE coldns C simplifier=0"]
+        elif kind == "fixcol" and p.n >= 1:
+            # branch-and-bound style: after a solve one column is fixed at a value inside its bounds (often a basic one: the warm start then has
+            # a basic variable outside its collapsed bounds), warm against cold
+            j = r.randrange(p.n)
+            lo_, up_ = p.cols[j][1], p.cols[j][2]
+            base_v = lo_ if lo_ is not None else (up_ if up_ is not None else Fraction(0))
+            v = base_v + (r.choice([0, 1, 2, 3]) if lo_ is not None else -r.choice([0, 1, 2, 3]))
+            if up_ is not None and v > up_:
+                v = up_
+            vt = lpgen.qs(Fraction(v))
+            steps += ["SOLVE cold0 S", "DUMP after-solve A", "MOD chgbounds chgbounds %d %s %s" % (j, vt, vt), "DUMP after-mod:chgbounds A",
+                      "SOLVE warm S", "DUMP after-warm A", "SOLVE cold C", "SOLVE coldns C simplifier=0"]
         elif kind == "rmmulti":
             # several rows or columns removed at once right after a solve (the descriptor is live): BasisChangeModel predicts the descriptor
             steps += ["SOLVE cold0 S", "DUMP after-solve A"]
